@@ -19,7 +19,21 @@ ASSUMPTIONS = ["scheduler runtime 0 (as in 33 of the 34 bundled configs)", "no p
 
 
 def greedy_worlds(tier):
-    return specs.worlds(contention=True, max_jobs=6, flags=specs.sim_flags(), zero_quantity=True)
+    @st.composite
+    def s(draw):
+        spec = draw(specs.worlds(contention=True, max_jobs=6, flags=specs.sim_flags(), zero_quantity=True))
+        if draw(st.integers(0, 3)) == 0:
+            # capacity vectors whose first instance of a type has the id 'any', next to a second instance of the type
+            for p in spec["cluster"]:
+                for w in p["workers"]:
+                    w["any_first"] = True
+                    if len({t for t, _q in w["resources"]}) == len(w["resources"]) and draw(st.booleans()):
+                        t, q = w["resources"][0]
+                        w["resources"].append([t, draw(st.integers(1, 2))])
+            spec["any_capacity"] = True
+        return spec
+
+    return s()
 
 
 CHECKS = [
